@@ -90,7 +90,23 @@ class ErasureObserver(pipeline.Observer):
             return
         after = snap.asnap(program)
         d = snap.adiff(self._before, after, limit=400)
-        self.rounds.append({'index': index, 'diff': d,
+        infer_v = []
+        try:
+            from sim import refcheck
+            ck = refcheck.Checker(program, infer=True)
+            ck.run()
+            seen_ = set()
+            for x in ck.viol:
+                if x['prop'] == 'C01' and x['rule'] in ('assign', 'arg', 'ctor-arg', 'ret', 'init',
+                                                        'branch', 'super-arg', 'array-elem'):
+                    key_ = (x['rule'], x['extra'])
+                    if key_ not in seen_:
+                        seen_.add(key_)
+                        infer_v.append(x)
+            ninf = ck.stats.get('inferred_variable_types', 0)
+        except RecursionError:
+            ninf = 0
+        self.rounds.append({'index': index, 'diff': d, 'infer_viol': infer_v, 'ninferred': ninf,
                             'uninferable': uninferable_type_args(program),
                             'is_transformed': bool(transformer.is_transformed),
                             'timer_fired': self.sim.fault_fired['P4'] + self.sim.fault_fired[
@@ -180,6 +196,13 @@ class C03(PipelineCheck):
                             rd['index'] + 1, cls, tpn, where.split('|')[0].replace('-', ' ')))
             if rd['uninferable']:
                 probes['uninferable_seen_any_language'] = 1
+            obl['well-typed-under-inference'] = obl.get('well-typed-under-inference', 0) + \
+                rd.get('ninferred', 0)
+            for x in rd.get('infer_viol', ()):
+                add('ill-typed-under-inference', '%s|%s' % (x['rule'], x['extra']),
+                    'round %d: with every omitted variable type replaced by the type of its '
+                    'initialiser the program is ill-typed: %s: %s at %s' % (
+                        rd['index'] + 1, x['rule'], x['detail'], x['where']))
             if real:
                 feats.append('%s-%d' % (sim.rand.digest(), rd['index']))
             else:
